@@ -272,7 +272,8 @@ func genConfig(c *ctx) {
 		case 9:
 			return "- quoted: \"a  b\\tc\""
 		case 10:
-			return "- 42: 1.5"
+			// arguments with a dollar sign (an iPXE boot URL, a shell-like default): they are text, nothing expands them
+			return pick(c, []string{"- 42: 1.5", "- nbp: http://10.0.0.1/boot.ipxe?mac=${net0/mac}&uuid=${uuid}", "- dns: $HOME 8.8.8.8", "- router: ${PATH} $PATH", "- searchdomains: a$$b.example $", "- file: $HOME/leases.txt"})
 		case 11:
 			return "- boolish: true"
 		default:
